@@ -24,6 +24,7 @@ CONSTANTS
   MaxDon,      \* donations per behaviour
   WithInvalid, \* also offer malformed / unauthorised variants of every message
   WithGenesis, \* also offer genesis round trips
+  Faults,      \* C07: a block is offered with fault = f for every f here (0 = no injected bank failure)
   HookVariants \* C17: also offer every input with one failing listener
 
 Half == D \div 2
@@ -156,7 +157,7 @@ Donations(s, g) ==
 
 Blocks(s) ==
   IF s.now >= Tmax \/ (Len(s.auctions) = 0 /\ s.now >= 1) THEN {}
-  ELSE { [a |-> "Block", t |-> t, fault |-> 0] : t \in (s.now + 1)..Min(s.now + Jump, Tmax) }
+  ELSE { [a |-> "Block", t |-> t, fault |-> f] : t \in (s.now + 1)..Min(s.now + Jump, Tmax), f \in Faults }
 
 Creates(s) ==
   IF Len(s.auctions) >= MaxAuc \/ s.now > CreateUntil THEN {}
